@@ -1837,7 +1837,10 @@ def gen_chain_case(ctx, run, prop):
         order.reverse()
     side = sorted(r.sample(range(3, n), min(20, n // 60)))       # a few diamond joins along the chain
     return {"chain": {"n": n, "salt": salt, "order": order, "how": how, "side": side,
-                      "reclimit": r.choice([250, 1000, 1000, 3000]), "x": r.choice([2.0, -3.5, 10.0])}}
+                      "reclimit": r.choice([250, 1000, 1000, 3000]), "x": r.choice([2.0, -3.5, 10.0]),
+                      # short branches hanging directly off the assigned location, not reachable from the chain
+                      # (defined before or after it): which of them the sort meets before the head of the chain is up to the hash order
+                      "branches": [r.choice(["before", "after"]) for _ in range(r.randint(0, 6))]}}
 
 
 def exec_chain(ctx, case, prop):
@@ -1856,11 +1859,23 @@ def exec_chain(ctx, case, prop):
     viol = None
     try:
         _sys.setrecursionlimit(max(ch["reclimit"], 200))
+        branches = list(ch.get("branches", ()))
+        for k in range(len(branches)):
+            dict.__setitem__(d, "b%d%s" % (k, salt), 0.0)
+            dict.__setitem__(d, "bb%d%s" % (k, salt), 0.0)
+
+        def define_branches(when):
+            for k, wh in enumerate(branches):
+                if wh == when:
+                    r["b%d%s" % (k, salt)] = r[key(0)] * (k + 2.0)
+                    r["bb%d%s" % (k, salt)] = r["b%d%s" % (k, salt)] + 1.0
         try:
+            define_branches("before")
             for i in ch["order"]:
                 r[key(i)] = r[key(i - 1)] + 1.0
                 if i in ch["side"]:
                     r["w%d%s" % (i, salt)] = r[key(i)] - r[key(i - 2)]
+            define_branches("after")
             r[key(0)] = ch["x"]
         except SimStall:
             raise
@@ -1878,6 +1893,13 @@ def exec_chain(ctx, case, prop):
                 viol = Violation(prop + ".chain.content", "chain of %d dependants (%s definitions): %s holds %r, expected %r"
                                  % (n, ch["how"], key(i), v, ch["x"] + i))
                 break
+        if viol is None:
+            for k in range(len(branches)):
+                v = dict.__getitem__(d, "bb%d%s" % (k, salt))
+                if v != ch["x"] * (k + 2.0) + 1.0:
+                    viol = Violation(prop + ".chain.content", "chain of %d dependants: branch bb%d off the assigned location holds %r, expected %r"
+                                     % (n, k, v, ch["x"] * (k + 2.0) + 1.0))
+                    break
         if viol is None:
             for j in ch["side"]:
                 v = dict.__getitem__(d, "w%d%s" % (j, salt))
